@@ -423,11 +423,35 @@ class SetInterp(object):
             for s in stores:
                 self._store[s] = Opaque(st)
             return
+        if isinstance(st, ast.For):
+            # ``for v in A: if <membership tests on v>: X.append(v)``: X gains the elements of A that pass the tests
+            if isinstance(st.target, ast.Name) and not st.orelse:
+                self._filter_loop(st.body, st.target.id, self._mask(st.iter))
+                return
+            raise Unmodelled('loop %s' % norm(st)[:80])
         if isinstance(st, (ast.Raise, ast.Pass, ast.Assert, ast.Return)):
             return
         if isinstance(st, (ast.Import, ast.ImportFrom, ast.Global, ast.Nonlocal)):
             return
         raise Unmodelled('statement %s' % norm(st)[:80])
+
+    def _filter_loop(self, body, var, cur):
+        for st in body:
+            if isinstance(st, ast.Pass) or (isinstance(st, ast.Expr) and isinstance(st.value, ast.Constant)):
+                continue
+            if isinstance(st, ast.If):
+                m = self._filter(st.test, var)
+                self._filter_loop(st.body, var, cur & m)
+                self._filter_loop(st.orelse, var, cur & self.u.neg(m))
+                continue
+            if isinstance(st, ast.Expr) and isinstance(st.value, ast.Call) and isinstance(st.value.func, ast.Attribute) and \
+                    isinstance(st.value.func.value, ast.Name) and st.value.func.attr in ('append', 'add') and len(st.value.args) == 1 \
+                    and isinstance(st.value.args[0], ast.Name) and st.value.args[0].id == var:
+                tgt = self._store.get(st.value.func.value.id)
+                if isinstance(tgt, SV):
+                    tgt.m |= cur
+                    continue
+            raise Unmodelled('loop body statement %s' % norm(st)[:80])
 
     def exec_block(self, stmts):
         for st in stmts:
